@@ -1,0 +1,24 @@
+//go:build !verif
+// +build !verif
+
+package sftp
+
+// Verification hook points (see verif_hook_on.go). With the "verif" build tag
+// off, verifHook is an empty function that the compiler inlines away.
+const (
+	vhAllocGet = iota
+	vhAllocRelease
+	vhAllocFree
+	vhPmIncoming
+	vhPmReady
+	vhPmDispatch
+	vhPmSendBegin
+	vhPmSendEnd
+	vhSrvWorker
+	vhRsWorker
+	vhCliAfterRegister
+	vhCliBeforeDeliver
+	vhCliBeforeBroadcast
+)
+
+func verifHook(point int, id, oid uint32, b []byte) {}
